@@ -11,7 +11,7 @@ pub mod log {
     pub(crate) use __vx_nop as error;
 }
 #[allow(unused_imports)]
-use log::{debug, error, info, trace};
+use log::{debug, error, info, trace, warn};
 
 // Panicking macros are NOT dropped: they resolve to stand-ins whose precondition is `false` (or the asserted
 // condition), so Verus must prove them unreachable / true. This is how "never panics" becomes an obligation.
